@@ -20,6 +20,7 @@ package main
 import (
 	"bytes"
 	"fmt"
+	"strings"
 	"sync"
 
 	"k8s.io/apimachinery/pkg/types"
@@ -86,7 +87,7 @@ func emitHistories(out *vh.Writer, envs map[bool]*env, thorough bool, id, baseID
 	var groups []*group
 	var wg sync.WaitGroup
 	for _, fx := range fixtures {
-		if fx.Name != "vs-rich" && fx.Name != "vs-small" {
+		if !strings.HasPrefix(fx.Name, "vs-rich") && fx.Name != "vs-small" {
 			continue
 		}
 		for _, plus := range []bool{false, true} {
